@@ -113,8 +113,8 @@ pub fn dispatch(kind: &str, v: &Value) -> Option<Outcome> {
     }
 }
 
-pub fn run(ctx: &Ctx) -> i32 {
-    let mut st = ctx.run_replays(&dispatch);
+pub fn campaigns(ctx: &Ctx) -> Stats {
+    let mut st = Stats::default();
     let t = ctx.tier;
     let mut sizes = vec![];
     let mx = t.pick(3, 4);
@@ -148,6 +148,12 @@ pub fn run(ctx: &Ctx) -> i32 {
     let total = t.pick(4000u64, 150000);
     let strat = || (1..=6usize, 1..=6usize, 1..=6usize, 2..=4usize, 2..=4usize, any::<usize>(), any::<u64>()).prop_map(|(r, k, c, m, n, sel, vseed)| MmRecipe { r, k, c, m, n, sel, vseed }).boxed();
     st.merge(ctx.run_prop("random-sizes-and-values", total, strat, random_case));
+    st
+}
+
+pub fn run(ctx: &Ctx) -> i32 {
+    let mut st = ctx.run_replays(&dispatch);
+    st.merge(campaigns(ctx));
     finish(
         ctx,
         st,
